@@ -7,11 +7,12 @@ import os, subprocess, sys, tempfile, json
 V = os.path.dirname(os.path.dirname(os.path.abspath(__file__)))
 args = sys.argv[1:]
 patch = os.path.abspath(args[0]); rest = args[1:]
-tier = 'quick'; suite = False; props = []
+tier = 'quick'; suite = False; props = []; keep = None
 i = 0
 while i < len(rest):
     if rest[i] == '--tier': tier = rest[i+1]; i += 2
     elif rest[i] == '--suite': suite = True; i += 1
+    elif rest[i] == '--keep': keep = rest[i+1]; i += 2      # e.g. C19/a : store under /verif/seeded/C19/a
     else: props.append(rest[i]); i += 1
 def sh(cmd, **kw):
     return subprocess.run(cmd, shell=True, stdout=subprocess.PIPE, stderr=subprocess.STDOUT, **kw)
@@ -43,3 +44,22 @@ finally:
     sh("git -C /repo checkout -- .")
     sh("rm -rf /tmp/seed_ev_*")
 print(json.dumps(res)[:3000])
+if keep:
+    import shutil
+    src = os.path.dirname(patch)
+    dst = os.path.join(V, 'seeded', keep)
+    os.makedirs(dst, exist_ok=True)
+    for f in os.listdir(src):
+        if os.path.isfile(os.path.join(src, f)):
+            shutil.copy(os.path.join(src, f), os.path.join(dst, f))
+    mp = os.path.join(dst, 'meta.json')
+    try:
+        meta = json.load(open(mp))
+    except (OSError, ValueError):
+        meta = {}
+    meta['verif_result'] = {'tier': tier, 'suite_with_patch': res.get('suite', 'not run here'),
+                            'checks': {p: {'detected': bool(res[p]['rc'] == 1 and res[p]['violation']),
+                                           'violation_line': (res[p]['violation'] or [''])[0],
+                                           'first_failures': res[p]['fails'][:4]} for p in props}}
+    json.dump(meta, open(mp, 'w'), indent=1)
+    print("kept in", dst)
